@@ -356,6 +356,7 @@ Exec(st, s) ==
                    IF Len(items) = 0 THEN Push(st, Tmpl(s.else))
                    ELSE LET pl == TryGet(st.layers, "forloop", <<>>) IN
                         ForIterate(Push(st, [f |-> "for", s |-> s, items |-> items, i |-> 1,
+                                             want |-> Select(c.items, off, lim, s.rev),
                                              ploop |-> IF pl = Missing THEN NilV ELSE pl]))
     [] s.t = "tablerow" ->
          LET c == Materialise(st.layers, s.src) IN
@@ -366,6 +367,7 @@ Exec(st, s) ==
               ELSE LET items == ImplWindow(c.items, off, lim, FALSE) IN
                    IF Len(items) = 0 THEN Advance(st)
                    ELSE TablerowIterate(Push(st, [f |-> "tablerow", s |-> s, items |-> items, i |-> 1,
+                                                  want |-> Select(c.items, off, lim, FALSE),
                                                   cols |-> IF cols.has THEN cols.n ELSE Len(items)]))
     [] s.t = "capture" ->
          Push(Push([st EXCEPT !.bufs = Append(st.bufs, "")], [f |-> "capture", var |-> s.var]),
@@ -512,6 +514,41 @@ LayerShape ==
 
 \* a finished render has unwound every scope and buffer it opened
 CleanFinish == status = "ok" => /\ Len(layers) = 4 /\ Len(regs) = 1 /\ Len(bufs) = 1 /\ ctl = <<>>
+
+\* C05: a loop iterates exactly the declaratively selected elements, and the
+\* loop object of the running iteration is truthful about it
+LoopFrames == {i \in 1..Len(ctl) : ctl[i].f \in {"for", "tablerow"}}
+VisitsExactlySelected == \A i \in LoopFrames : ctl[i].items = ctl[i].want
+\* the scope layer of the k-th open loop (counting plain layers pushed by loops)
+LoopObjectTruthful ==
+  \A i \in LoopFrames :
+    LET f == ctl[i]
+        len == Len(f.want)
+        \* the iteration layer is the plain layer that defines the loop variable and the loop object
+        objname == IF f.f = "for" THEN "forloop" ELSE "tablerow"
+        cands == {j \in 5..Len(layers) : layers[j].kind = "plain" /\ objname \in DOMAIN layers[j].m
+                                         /\ f.s.var \in DOMAIN layers[j].m}
+    IN \E j \in cands :
+         LET o == layers[j].m[objname].o IN
+         /\ layers[j].m[f.s.var] = f.want[f.i]
+         /\ o.index = IntV(f.i) /\ o.index0 = IntV(f.i - 1)
+         /\ o.rindex = IntV(len - f.i + 1) /\ o.rindex0 = IntV(len - f.i)
+         /\ o.first = BoolV(f.i = 1) /\ o.last = BoolV(f.i = len)
+         /\ o.length = IntV(len)
+         /\ f.f = "tablerow" =>
+               /\ o.col0 = IntV((f.i - 1) % f.cols) /\ o.col = IntV(((f.i - 1) % f.cols) + 1)
+               /\ o.col_first = BoolV((f.i - 1) % f.cols = 0)
+               /\ o.col_last = BoolV((f.i - 1) % f.cols = f.cols - 1 \/ f.i = len)
+
+\* C05: a break consumed at a loop boundary ends exactly that loop, a continue none
+ForFrames(c) == Cardinality({i \in 1..Len(c) : c[i].f = "for"})
+BreakEndsInnermostOnly ==
+  [][Returning("for") =>
+       LET intr == Top(regs).intr IN
+       /\ Top(regs').intr = "none"
+       /\ intr = "break" => ForFrames(ctl') = ForFrames(ctl) - 1
+       /\ intr = "continue" =>
+             ForFrames(ctl') = ForFrames(ctl) - (IF ctl[Len(ctl) - 1].i = Len(ctl[Len(ctl) - 1].items) THEN 1 ELSE 0)]_vars
 
 \* C10: after the sink failed nothing more is accepted and the result is an error
 FailedMeansErr == sink.failed => status = "err"
